@@ -45,6 +45,20 @@ pub fn run_c14(out: &mut Out, _rng: &mut Rng, tier: Tier) -> String {
     pairs::<()>(out, 2);
     pairs::<u32>(out, 2);
     pairs::<Cm>(out, 2);
+    for ((dr, dc), (sr, sc)) in [((64usize, 65usize), (65usize, 64usize)), ((33, 32), (64, 65)), ((64, 65), (64, 65)), ((3, 1400), (1, 4099)), ((4099, 1), (3, 1400))] {
+        for dorder in ORDERS {
+            for sorder in ORDERS {
+                out.case(&format!("overwrite-large dest={dr}x{dc}{} src={sr}x{sc}{}", ord_ch(dorder), ord_ch(sorder)));
+                out.nontrivial();
+                let mut w = World::<Tok>::new(out);
+                w.new_matrix(out, 0, dorder, dr, dc, 1);
+                w.new_matrix(out, 1, sorder, sr, sc, 100000);
+                w.overwrite(out, 0, 1);
+                w.drop_reg(out, 0);
+                w.drop_reg(out, 1);
+            }
+        }
+    }
     out.led_mode = true;
     pairs::<Zd>(out, 2);
     out.led_mode = false;
